@@ -399,6 +399,15 @@ def families(tier: str) -> List[Dict[str, Any]]:
         node = group("G", "Muss", segments=[segment("S", "Muss", elements=els), segment("S'", "Muss", elements=[freetext("D9", "Muss [1][909]", combo[0])])])
         env = {"rc": {"1": F}, "fc_text": {"901": "abc", "902": "abc", "903": "abc", "909": "abc"}, "soll": True}
         cases.append({"family": "ctx", "entry": "deep", "node": node, "env": env, "orders": True, "alone": True})
+    # elements sharing a discriminator (maus documents discriminator=None for elements not found in the MIG)
+    for discs in (("D", "D", "D"), (None, None, "E"), ("A", None, "A")):
+        els = [freetext(d, f"Muss [1][90{j}]", t) for j, (d, t) in enumerate(zip(discs, ("abc", "tooshort", "")), 1)]
+        node = group("G", "Muss", segments=[segment("S", "Muss", elements=els)])
+        env = {"rc": {"1": F}, "fc_text": {"901": "abc", "902": "abc", "903": "abc"}, "soll": True}
+        cases.append({"family": "ctx", "entry": "deep", "node": node, "env": env, "orders": True})
+        els2 = [freetext(discs[0], "Muss [1]", "x"), freetext(discs[1], "Kann [2]", None), valuepool(discs[2], [("Q1", "m", "X"), ("Q2", "m", "X [2]")], "Q1")]
+        node2 = group("G", "Muss", segments=[segment("S", "Muss", elements=els2)])
+        cases.append({"family": "wide", "entry": "deep", "node": node2, "env": {"rc": {"1": F, "2": U}, "fc_text": {}, "soll": True}, "orders": True})
     return cases
 
 
